@@ -561,9 +561,17 @@ func TestC16(t *testing.T) {
 					local, remote = b, a
 				}
 				nd := w.nodes[local]
-				skip := c.Int("sched.call", 0, 40)
-				w.log("n%d dials n%d; n%d closes its link to n%d at call %d its modules make during the setup", a, b, local, remote, skip)
-				nd.Gate.Arm(skip)
+				at := core.OneOf(c, "sched.point", "", "instance.RoutingTable", "instance.State", "instance.Identity", "instance.Config", "instance.Peering", "instance.Switch")
+				skip := c.Int("sched.call", 0, 6)
+				if at == "" {
+					skip = c.Int("sched.any-call", 0, 40)
+				}
+				w.log("n%d dials n%d; n%d closes its link to n%d at call %d (%s) its modules make during the setup", a, b, local, remote, skip, at)
+				if at == "" {
+					nd.Gate.Arm(skip)
+				} else {
+					nd.Gate.ArmAt(at, skip)
+				}
 				stop := make(chan struct{})
 				helper := make(chan string, 1)
 				go func() {
